@@ -179,3 +179,4 @@ def body_whole(sel: int) -> bool:
         if len(name) != 1 or len(coefs) != 2 or coefs[0][0] == coefs[1][0] or coefs[0][0] != name[0] + "_r" or coefs[1][0] != name[0] + "_i":
             return fail(f"coefficient names of {name}: {coefs}")
     return True
+
